@@ -159,7 +159,7 @@ func runAdm(bs []byte) (string, []string) {
 		x.alive = healed
 		// leftover failure budget (the monitor gave up early, or k > what it may try) is not carried over
 		x.tr.mu.Lock()
-		x.tr.failOpen = 0
+		x.tr.openScript = nil
 		x.tr.mu.Unlock()
 		// the property, for THIS transport against the policy configured on ITS monitor value
 		for _, v := range outageViolations(toks, x.cfg, k, false) {
